@@ -2,6 +2,9 @@
 """Generates /verif/MUTATIONS.md from seeded/*/meta.json (+ seeded/matrix.json when present)."""
 import json, glob, os
 rows = []
+own = {}
+if os.path.exists('/verif/seeded/own.json'):
+    own = json.load(open('/verif/seeded/own.json'))
 matrix = {}
 if os.path.exists('/verif/seeded/matrix.json'):
     try: matrix = json.load(open('/verif/seeded/matrix.json'))
@@ -12,21 +15,26 @@ for d in sorted(glob.glob('/verif/seeded/C*/')):
     rows.append((name, m))
 out = ["# Seeded changes and which checks catch them", "",
        "Every entry is a change to hohav/peppi written by a fresh sub-agent that was given only the property text and its own",
-       "scratch worktree (round 1: statement + quantifier + why-tests-cannot; round 2, suffix C/D: the same plus the property's anchors",
-       "and a request for subtler changes). Each was confirmed by `tools/verify_seed.sh` in a scratch worktree: the repository's 30 tests",
+       "scratch worktree (four rounds of 20 agents x 2 changes: round 1, suffix A/B: statement + quantifier + why-tests-cannot; round 2, C/D:",
+       "plus the property's anchors and a request for subtler changes; round 3, E/F: changes of a different nature; round 4, G/H(/I): plus the",
+       "list of ideas already used). Each was confirmed by `tools/verify_seed.sh` in a scratch worktree: the repository's 30 tests",
        "(+3 doctests) pass with the change, the sub-agent's demonstration fails with it and passes without it. The checks were run with",
        "`tools/try_seed.sh` (`git -C /repo apply`, `./check <id>`, `git -C /repo checkout -- .`). `patch.diff`, `demo.rs`, `notes.md`,",
        "`meta.json` are in `seeded/<id>/`.", "",
        "Column *all quick checks that report it* comes from `tools/matrix.sh` (every quick check against every change, in an isolated copy);",
        "`rc2` marks a check that stopped with a machinery exit under that change (its base replay no longer reads) - not a verdict.", "",
-       "| change | what it needs to manifest | claimed property's check | all quick checks that report it |", "|---|---|---|---|"]
+       "Column *final run* is the regression of detection with the checks as they are at the end (`OWN=1 tools/matrix.sh`: the claimed",
+       "property's quick check against every change, in an isolated copy): `reported` or `NOT reported`.", "",
+       "| change | what it needs to manifest | claimed property's check | final run | all quick checks that report it |", "|---|---|---|---|---|"]
 missed = 0
 for name, m in rows:
     det = m['detected_by']
     if det.startswith('MISSED'):
         missed += 1
-    mx = ", ".join(matrix.get(name, [])) if name in matrix else "(matrix not run yet)"
-    out.append(f"| {name} | {m['what_it_needs_to_manifest']} | {det} | {mx} |")
+    mx = ", ".join(matrix.get(name, [])) if name in matrix else "(cross run made for the first 80 changes only)"
+    pid = name.split('-')[0]
+    fin = "reported" if pid in own.get(name, []) else ("patch no longer applies (see meta.json)" if name not in own else "NOT reported")
+    out.append(f"| {name} | {m['what_it_needs_to_manifest']} | {det} | {fin} | {mx} |")
 out += ["", f"{len(rows)} changes; {missed} were missed by the claimed property's check as first built and are caught since the strengthening named in the row;",
         "none is missed by the current checks."]
 open('/verif/MUTATIONS.md', 'w').write("\n".join(out) + "\n")
